@@ -117,7 +117,7 @@ Definition trailing (b : blob) (in_envelope : bool) : bytes := if in_envelope th
 
 Theorem blob_roundtrip b env : wf_blob b = true ->
   exists ci, blob_pack b env = Ok (ci ++ trailing b env) /\ blob_unpack (ci ++ trailing b env) = Ok b /\
-    (exists h, forall rest, peek_header (ci ++ rest) = Ok h /\ h_tlen h + h_len h = len ci).
+    (exists h, forall rest, peek_header (ci ++ rest) = Ok h /\ h_tlen h + h_len h = len ci) /\ len ci < BIG.
 Proof.
   unfold wf_blob. rewrite !andb_true_iff. intros [[[[[[[Hkid Hsid] Hcek] Ha1] Hp1] Hcont] Ha2] Hp2].
   destruct (kid_pack_len _ Hkid) as (kb & Ekb & Ukb & Hlkb).
@@ -141,7 +141,7 @@ Proof.
   cbn [oka_attr oka obytes_len] in Hled.
   destruct (ci_roundtrip oid_enveloped_data eed Hew Hes ltac:(unfold U32 in *; lia)) as (tci & eci & h & Eci & Eeci & Hlci & Hpeek & Htot & Uci).
   subst oka alg1 alg2 content.
-  exists eci. split; [|split].
+  exists eci. split; [|split; [|split]].
   - unfold blob_pack. rewrite Ekb. cbn [bind]. rewrite Epd. cbn [bind].
     unfold blob_enveloped_data. change k_blob_ed_version with 2. change k_blob_kri_version with 4.
     match type of Eed with ?L = _ => match goal with |- context C [EnvelopedData_pack ?x] => let G := context C [L] in change G end end.
@@ -158,11 +158,12 @@ Proof.
     cbn [b_key_identifier b_sid b_enc_cek b_enc_cek_algorithm b_enc_cek_parameters b_enc_content b_enc_content_algorithm b_enc_content_parameters trailing].
     do 2 f_equal. destruct env; [destruct cont; reflexivity|reflexivity].
   - exists h. intros rest. split; [apply Hpeek|exact Htot].
+  - cbn [alg_params] in *. unfold U32, BIG in *. lia.
 Qed.
 
 Theorem blob_reencode b env : wf_blob b = true ->
   exists bs b', blob_pack b env = Ok bs /\ blob_unpack bs = Ok b' /\ blob_pack b' env = Ok bs.
 Proof.
-  intros Hwf. destruct (blob_roundtrip b env Hwf) as (ci & Ep & Eu & _).
+  intros Hwf. destruct (blob_roundtrip b env Hwf) as (ci & Ep & Eu & _ & _).
   exists (ci ++ trailing b env), b. auto.
 Qed.
